@@ -15,7 +15,18 @@ FUNCS = ["ldb_do_compaction_work", "ldb_open_compaction_output_file", "ldb_finis
          "ldb_buffer_copy", "ldb_buffer_clear", "ldb_vector_push", "ldb_vector_top", "ldb_vector_grow",
          "ldb_iter_create", "ldb_iter_destroy", "slice_compare"]
 
-FP = []
+FP = ["ldb_do_compaction_work.function_pointer_call.1/vp_in_first",
+      "ldb_do_compaction_work.function_pointer_call.2/vp_in_valid",
+      "ldb_do_compaction_work.function_pointer_call.3/vp_in_key",
+      "ldb_do_compaction_work.function_pointer_call.4/slice_compare",
+      "ldb_do_compaction_work.function_pointer_call.5/vp_in_value",
+      "ldb_do_compaction_work.function_pointer_call.6/vp_in_next",
+      "ldb_do_compaction_work.function_pointer_call.7/vp_in_status",
+      "ldb_finish_compaction_output_file.function_pointer_call.1/vp_in_status",
+      "ldb_finish_compaction_output_file.function_pointer_call.2/vp_in_status",
+      "ldb_iter_clear.function_pointer_call.1/vp_in_clear",
+      "ldb_iter_clear.function_pointer_call.2/cleanup_iter_state",
+      "ldb_iter_clear.function_pointer_call.3/cleanup_iter_state"]
 
 
 def _one(prefix, n, snaps=2, faults=1, imm=0, env=1, tier="quick", timeout=600):
